@@ -47,11 +47,19 @@ async def step(w: World, rnd, weights, names, opts):
     sel = ss.view is not None and ss.selected in w.boxes
     n = ss.nview()
     sel_names = [x for x in names if x in w.boxes and not w.boxes[x].noselect]
+    def dest():
+        # mostly a selectable mailbox; sometimes a \\Noselect placeholder or a
+        # name that does not exist (must be refused without effect)
+        if rnd.random() < 0.1:
+            ph = [x for x in w.boxes if w.boxes[x].noselect]
+            return rnd.choice(ph) if ph and rnd.random() < 0.7 else "nosuch-box"
+        return rnd.choice(sel_names)
+
     if ss.idling and op not in ("deliver", "advance", "observe"):
         await w.op_done(ss)
         return "done"
     if op == "append":
-        nm = rnd.choice(sel_names)
+        nm = dest()
         fl = rnd.choice([None, [], ["\\Seen"], ["\\Deleted"], ["\\Seen", "\\Flagged"], ["\\Answered", "kw1"]]) if opts.get("append_flags", True) else None
         dt = rnd.choice([None, None, "01-Jan-2020 10:00:00 +0000", "15-Mar-2021 23:59:59 -0500"])
         await w.op_append(ss, nm, flags=fl, date=dt)
@@ -77,13 +85,13 @@ async def step(w: World, rnd, weights, names, opts):
     elif op in ("copy", "move") and sel and n:
         if op == "move" and ss.readonly and rnd.random() < 0.7:
             return "skip"
-        await w.op_copy(ss, rand_positions(rnd, n), rnd.choice(sel_names), move=(op == "move"))
+        await w.op_copy(ss, rand_positions(rnd, n), dest(), move=(op == "move"))
     elif op in ("uid_copy", "uid_move") and sel and n:
         b = w.boxes[ss.selected]
         us = [m.uid for m in b.msgs if m.uid is not None]
         if us:
             pick_u = sorted(rnd.sample(us, rnd.randint(1, min(3, len(us))))) + ([max(us) + 5] if rnd.random() < 0.3 else [])
-            await w.op_copy(ss, pick_u, rnd.choice(sel_names), uid_mode=True, move=(op == "uid_move"))
+            await w.op_copy(ss, pick_u, dest(), uid_mode=True, move=(op == "uid_move"))
     elif op == "noop":
         await w.op_noop(ss)
     elif op == "check" and sel:
